@@ -40,6 +40,8 @@ func coreC19(tier string) []RunSpec {
 	out = append(out, RunSpec{Profile: "core:restore-continue", Params: map[string]int{"scenario": 1}})
 	out = append(out, RunSpec{Profile: "core:restore-continue-rot", Params: map[string]int{"scenario": 1, "rot": 1}})
 	out = append(out, RunSpec{Profile: "core:many-outputs", Params: map[string]int{"scenario": 2}})
+	// known finding: SIG_ALL token from an untrusted mint, swap-to-trusted fails, received again
+	out = append(out, RunSpec{Profile: "core:sigall-crossmint-again", Params: map[string]int{"scenario": 3, "mints": 2}})
 	return out
 }
 
@@ -50,7 +52,15 @@ func runC19(rc *RunCtx) {
 	if _, ok := rc.Spec.Params["crashop"]; ok {
 		ln.PayOutcomeMix = 0
 	}
-	ww := rc.NewWalletWorld(ln, []uint{fee}, 2)
+	fees := []uint{fee}
+	_, fixedScenario := rc.Spec.Params["scenario"]
+	_ = fixedScenario
+	_, crashScenario := rc.Spec.Params["crashop"]
+	if rc.P("mints", 0) == 2 || (!fixedScenario && !crashScenario && T.Chance("cfg.mints2", 1, 3)) {
+		// two mints: receives from an untrusted mint with swap-to-trusted, mint-to-mint swaps
+		fees = append(fees, c17Fees[T.Choose("cfg.fee2", 3)])
+	}
+	ww := rc.NewWalletWorld(ln, fees, 2)
 	for i := range ww.Wallets {
 		ww.step = -1 - i
 		ww.StepMint()
@@ -67,10 +77,27 @@ func runC19(rc *RunCtx) {
 	case 2:
 		c19ManyOutputs(ww)
 		return
+	case 3:
+		// the 1 sat token cannot be moved across (fees), so the swap-to-trusted receive fails after
+		// its unlocking swap; then the same token is received without swap-to-trusted
+		c17SigAllCrossMint(ww)
+		checked = ww.CheckCounters(checked)
+		t := ww.Tokens[len(ww.Tokens)-1]
+		ww.op("w.receive p2pk sigall=true crossmint=false")
+		ww.W.WalletOp(t.To, "recv2", nil, func(wl *wallet.Wallet) {
+			tk, _ := cashu.DecodeToken(t.Str)
+			wl.Receive(tk, false)
+		})
+		ww.CheckCounters(checked)
+		rc.Nontrivial = true
+		return
 	}
 	// random: histories with restores (some replacing the wallet), rotation, and sometimes a crash
 	// weights:       mint send receive sendlocked melt resolvemelt reclaim mintswap rotate
 	weights := []int{3, 5, 5, 1, 3, 2, 2, 0, 1}
+	if len(fees) == 2 {
+		weights = []int{3, 5, 6, 3, 3, 2, 2, 1, 1}
+	}
 	rc.StepLoop(3, 14, func(i int) {
 		ww.step = i
 		switch T.Pick("c19.kind", 8, 2, 1, 1) {
